@@ -80,6 +80,9 @@ def run(run):
             _r1_r2(run, ev, label, fields)
     _r3_tile_image(run, ev)
     _r5_clones(run)
+    # "reads back exactly": Image.save writes the tile's own pixel array in the array formats (npy, fits)
+    from . import imgrep
+    imgrep.saved_pixels(run, "C08.R3")
     # a count (or anything else) remembered on the tiling object must be forgotten when the rectangle it was computed from changes
     from . import memo
     memo.check_attribute_caches(run, "C08.R1", ST)
